@@ -379,7 +379,7 @@ impl Prop for C08 {
         vec!["names that legitimately change the content model (text-mode, void, svg/math, table-structure, formatting/auto-closing names) are not judged, as the API documentation requires the caller to avoid them".into()]
     }
     fn run_shard(&self, ctx: &mut Ctx<'_>) {
-        let n = ctx.budget(400_000, 8_000_000);
+        let n = ctx.budget(400_000, 40_000_000);
         let encs = gen::ascii_compatible_encodings();
         for i in 0..n {
             if i % 32 == 0 && ctx.should_stop() {
